@@ -1,12 +1,29 @@
 (** Extraction of the executable model and specification for the correspondence check and the
     failing-input search.  ExtrOcamlBasic only (bool, option, unit, list, prod, sumbool mapped to
     OCaml's own types); no Extract Constant; N/Z/nat/positive stay Coq datatypes.
-    Run by tools/check.py inside /verif/ocaml (coqc writes model.ml into the current directory). *)
+    Run by ocaml/build.sh inside /verif/ocaml (coqc writes model.ml into the current directory). *)
 From Coq Require Extraction ExtrOcamlBasic.
 From Coq Require Import ZArith NArith List.
-From Morlock.Model Require Import Score.
+From Morlock.Model Require Import Score Bits Attacks Move Position Zobrist Board Abs.
+From Morlock.Spec Require Chess Game.
 Extraction Language OCaml.
 Extraction "model.ml"
   Score.less Score.negate Score.inc Score.dec Score.smax Score.smin Score.mate_distance Score.go_eq
   Score.rank Score.rank_lt Score.valid Score.score_eqb Score.T Score.U
-  N.land Nat.add.
+  N.land Nat.add
+  Bits.popcount Bits.ctz Bits.bits_asc Bits.bitmask Bits.bitrank Bits.bitfile
+  Attacks.rook_attackboard Attacks.bishop_attackboard Attacks.queen_attackboard Attacks.king_attackboard
+  Attacks.knight_attackboard Attacks.pawn_captureboard Attacks.pawn_moveboard Attacks.new_rotated Attacks.rot_xor
+  Attacks.attackboard
+  Move.castling_rights_lost Move.move_eqb Move.move_equals
+  Position.pseudo_legal_moves Position.pos_move Position.legal_moves Position.square Position.is_attacked
+  Position.is_checked Position.is_checkmate Position.has_insufficient_material Position.pos_eqb Position.new_position
+  Position.is_attacked_by Position.pos_xor
+  Zobrist.zhash Zobrist.zmove
+  Board.new_board Board.fork Board.push_move Board.pop_move Board.adjudicate_no_legal_moves Board.last_move
+  Board.second_to_last_move Board.has_castled Board.has_moved Board.b_position Board.b_hash Board.b_noprogress
+  Abs.abs_pos Abs.abs_move Abs.inv_b Abs.wf_b Abs.color_of Abs.kind_of Abs.code_of_kind Abs.code_of_color
+  Chess.spec_legal Chess.apply_move Chess.in_check Chess.attacked Chess.spec_perft Chess.spos_eqb Chess.smove_eqb
+  Chess.checkmate Chess.stalemate Chess.candidates Chess.attacks_from Chess.occupied Chess.captured Chess.moving
+  Chess.is_ep_move Chess.is_castling_move Chess.is_double_step
+  Game.g_start Game.g_play Game.insufficient Game.occurrences.
